@@ -495,7 +495,37 @@ func modeC19(e *Env) {
 				"has": next.ContainsGTID(g), "sup": next.Contains(cur)})
 			cur = next
 		}
-		emitCase(e, M{"fn": "gsmaria", "cls": "maria-set", "entries": entries, "ops": ops, "obs": o, "hist": obs})
+		// containment between two sets: the other one lists (some of) the same domains in ANOTHER order, with smaller,
+		// equal or greater sequence numbers, and possibly a domain of its own
+		var other replication.MariadbGTIDSet
+		oentries := []M{}
+		for _, j := range e.R.Perm(len(set)) {
+			if e.R.Intn(4) == 0 {
+				continue
+			}
+			g := set[j]
+			switch e.R.Intn(3) {
+			case 0:
+				if g.Sequence > 1 {
+					g.Sequence -= uint64(1 + e.R.Intn(int(g.Sequence-1)+1))
+					if g.Sequence == 0 {
+						g.Sequence = 1
+					}
+				}
+			case 1:
+				g.Sequence += uint64(e.R.Intn(3))
+			}
+			g.Server = uint32(1 + e.R.Intn(3))
+			other = append(other, g)
+			oentries = append(oentries, M{"dom": int64(g.Domain), "srv": int64(g.Server), "seq": int64(g.Sequence)})
+		}
+		if e.R.Intn(5) == 0 {
+			g := replication.MariadbGTID{Domain: 900 + uint32(e.R.Intn(5)), Server: 1, Sequence: uint64(1 + e.R.Intn(9))}
+			other = append(other, g)
+			oentries = append(oentries, M{"dom": int64(g.Domain), "srv": int64(g.Server), "seq": int64(g.Sequence)})
+		}
+		o["contains"], o["containedBy"] = orig.Contains(other), other.Contains(orig)
+		emitCase(e, M{"fn": "gsmaria", "cls": "maria-set", "entries": entries, "other": oentries, "ops": ops, "obs": o, "hist": obs})
 	}
 	_ = binary.LittleEndian
 }
